@@ -389,4 +389,148 @@ theorem runPlain_decClient (hf : HashFns H) [BEq H] (fl : Flavour) (f F : Nat) (
                 · simp only [Dec.runAux, Dec.next, Dec.nextFsm, hn, hr, hst, hm]
                   simpa using h3
 
+/-! ## outboard creation as a client of its data source -/
+
+variable {σ : Type}
+
+/-- the common shape of `outboardLoop` and `outboardPostOrderLoop`: `par` is what is done for a
+parent item (no read), a leaf item reads `size` bytes of the data source -/
+def obLoopG (hf : HashFns H) (par : Nat → Bool → List H → σ → Sum (ObRun H σ) (List H × σ)) :
+    List Chunk → List H → List UInt8 → σ → ObRun H σ
+  | [], stack, _, sink =>
+    match stack with
+    | [h] => ⟨.ok h, sink⟩
+    | _ => ⟨.panic, sink⟩
+  | .parent node isRoot _ _ _ :: plan, stack, data, sink =>
+    match par node isRoot stack sink with
+    | .inl r => r
+    | .inr (stack', sink') => obLoopG hf par plan stack' data sink'
+  | .leaf start size isRoot _ :: plan, stack, data, sink =>
+    match readExact data size with
+    | .error e => ⟨.err e, sink⟩
+    | .ok (buf, rest) => obLoopG hf par plan (hashSubtree hf start buf isRoot :: stack) rest sink
+
+/-- parent step of `outboard_impl`: save the pair -/
+def parOb (hf : HashFns H) (node : Nat) (isRoot : Bool) (stack : List H) (ob : Store H) :
+    Sum (ObRun H (Store H)) (List H × Store H) :=
+  match stack with
+  | r :: l :: stack =>
+    match ob.save hf node (l, r) with
+    | .err e => .inl ⟨.err e, ob⟩
+    | .panic => .inl ⟨.panic, ob⟩
+    | .ok ob' => .inr (hf.parentCv l r isRoot :: stack, ob')
+  | _ => .inl ⟨.panic, ob⟩
+
+/-- parent step of `outboard_post_order_impl`: append the pair -/
+def parPo (hf : HashFns H) (_node : Nat) (isRoot : Bool) (stack : List H) (out : List UInt8) :
+    Sum (ObRun H (List UInt8)) (List H × List UInt8) :=
+  match stack with
+  | r :: l :: stack => .inr (hf.parentCv l r isRoot :: stack, out ++ hf.toBytes l ++ hf.toBytes r)
+  | _ => .inl ⟨.panic, out⟩
+
+theorem outboardLoop_eq (hf : HashFns H) (plan : List Chunk) (stack : List H) (data : List UInt8)
+    (ob : Store H) : outboardLoop hf plan stack data ob = obLoopG hf (parOb hf) plan stack data ob := by
+  induction plan generalizing stack data ob with
+  | nil =>
+    simp only [outboardLoop, obLoopG]
+    cases stack with
+    | nil => rfl
+    | cons h t => cases t <;> rfl
+  | cons c plan ih =>
+    cases c with
+    | parent node isRoot left right rs =>
+      simp only [outboardLoop, obLoopG, parOb]
+      split
+      · split <;> simp_all
+      · simp_all
+    | leaf start size isRoot rs =>
+      simp only [outboardLoop, obLoopG]
+      split <;> simp_all
+
+theorem outboardPostOrderLoop_eq (hf : HashFns H) (plan : List Chunk) (stack : List H)
+    (data out : List UInt8) :
+    outboardPostOrderLoop hf plan stack data out = obLoopG hf (parPo hf) plan stack data out := by
+  induction plan generalizing stack data out with
+  | nil =>
+    simp only [outboardPostOrderLoop, obLoopG]
+    cases stack with
+    | nil => rfl
+    | cons h t => cases t <;> rfl
+  | cons c plan ih =>
+    cases c with
+    | parent node isRoot left right rs =>
+      simp only [outboardPostOrderLoop, obLoopG, parPo]
+      split <;> simp_all
+    | leaf start size isRoot rs =>
+      simp only [outboardPostOrderLoop, obLoopG]
+      split <;> simp_all
+
+/-- state of the outboard-creation client -/
+inductive OSt (H σ : Type)
+  | run (plan : List Chunk) (stack : List H) (sink : σ)
+  | fin (r : ObRun H σ)
+
+/-- outboard creation as a client: `size` bytes per leaf item; a parent item reads nothing (a read
+of 0 bytes, which does not touch the transport) -/
+def obClient (hf : HashFns H) (par : Nat → Bool → List H → σ → Sum (ObRun H σ) (List H × σ)) :
+    Client (OSt H σ) (ObRun H σ) where
+  step
+    | .fin r => .inl r
+    | .run [] stack sink =>
+      .inl (match stack with
+        | [h] => ⟨.ok h, sink⟩
+        | _ => ⟨.panic, sink⟩)
+    | .run (.parent node isRoot _ _ _ :: plan) stack sink =>
+      match par node isRoot stack sink with
+      | .inl r => .inl r
+      | .inr (stack', sink') => .inr (0, fun _ => .run plan stack' sink')
+    | .run (.leaf start size isRoot _ :: plan) stack sink =>
+      .inr (size, fun
+        | .error e => .fin ⟨.err e, sink⟩
+        | .ok buf => .run plan (hashSubtree hf start buf isRoot :: stack) sink)
+
+theorem runPlain_obClient (hf : HashFns H)
+    (par : Nat → Bool → List H → σ → Sum (ObRun H σ) (List H × σ)) (plan : List Chunk) (F : Nat)
+    (hF : plan.length + 2 ≤ F) (stack : List H) (data : List UInt8) (sink : σ) :
+    ∃ rest', runPlain (obClient hf par) F (.run plan stack sink) data =
+      some (obLoopG hf par plan stack data sink, rest') := by
+  induction plan generalizing F stack data sink with
+  | nil =>
+    obtain ⟨F, rfl⟩ : ∃ F', F = F' + 1 := ⟨F - 1, by omega⟩
+    exact ⟨data, by rw [runPlain_inl _ _ _ _ _ rfl]; simp [obLoopG]⟩
+  | cons c plan ih =>
+    obtain ⟨F, rfl⟩ : ∃ F', F = F' + 2 := ⟨F - 2, by simp at hF; omega⟩
+    have hF' : plan.length + 2 ≤ F + 1 := by simp at hF; omega
+    cases c with
+    | parent node isRoot left right rs =>
+      cases hp : par node isRoot stack sink with
+      | inl r =>
+        exact ⟨data, by rw [runPlain_inl _ _ _ _ r (by simp [obClient, hp])]; simp [obLoopG, hp]⟩
+      | inr q =>
+        obtain ⟨stack', sink'⟩ := q
+        obtain ⟨rest', h⟩ := ih (F + 1) hF' stack' data sink'
+        refine ⟨rest', ?_⟩
+        rw [runPlain_ok _ _ _ _ 0 (fun _ => .run plan stack' sink') [] data
+          (by simp [obClient, hp]) (readExact_zero data)]
+        simp only [obLoopG, hp]
+        exact h
+    | leaf start size isRoot rs =>
+      have hstep : (obClient hf par).step (.run (.leaf start size isRoot rs :: plan) stack sink) =
+          .inr (size, fun
+            | .error e => .fin ⟨.err e, sink⟩
+            | .ok buf => .run plan (hashSubtree hf start buf isRoot :: stack) sink) := rfl
+      cases hr : readExact data size with
+      | error e =>
+        refine ⟨[], ?_⟩
+        rw [runPlain_error _ _ _ _ _ _ _ hstep hr]
+        simp only [obLoopG, hr]
+        rfl
+      | ok q =>
+        obtain ⟨buf, rest⟩ := q
+        obtain ⟨rest', h⟩ := ih (F + 1) hF' (hashSubtree hf start buf isRoot :: stack) rest sink
+        refine ⟨rest', ?_⟩
+        rw [runPlain_ok _ _ _ _ _ _ _ _ hstep hr]
+        simp only [obLoopG, hr]
+        exact h
+
 end Bao.ScriptL
